@@ -85,7 +85,11 @@ func runC08(c *Ctx) {
 		}
 		for _, mc := range mcs {
 			lease := callArg(mc, 2)
-			leaves := c08Leaves(lease)
+			// the lease is decided as a min-fold whatever its shape (phi, helper
+			// lowering the NS deadline by the DS deadline, builtin min); the
+			// folded candidates are what the origin clauses below look at
+			terms := c.c08Fold("C08-R1", "C08-R1|processDelegation|lease is the minimum", "leaseDeadline", []c08Alt{{Val: lease, At: mc}}, c08FoldOpt{})
+			leaves := c08TermExprs(terms)
 			kinds := map[string]bool{}
 			okOrigin := len(leaves) > 0
 			for _, l := range leaves {
@@ -133,14 +137,6 @@ func runC08(c *Ctx) {
 				c.ok("C08-R1", kBoth, instrPos(mc), "both the NS-TTL deadline and the DS-TTL deadline reach the lease")
 			} else {
 				c.violation("C08-R1", kBoth, instrPos(mc), fmt.Sprintf("lease does not fold both referral TTLs (ns=%v ds=%v)", kinds["ns"], kinds["ds"]))
-			}
-			kFold := "C08-R1|processDelegation|lease is the minimum"
-			if phi, ok := lease.(*ssa.Phi); ok {
-				c.c08MinFoldPhi("C08-R1", kFold, phi, "leaseDeadline")
-			} else if se := strip(Desc(lease)); se != nil && se.K == ECall && (se.Method == "builtin.min" || CallTo(minNonZero)(se)) {
-				c.ok("C08-R1", kFold, instrPos(mc), "lease computed by a min function")
-			} else {
-				c.undecided("C08-R1", kFold, instrPos(mc), "lease is not a phi/min of alternatives: "+trunc(Desc(lease).String(), 200))
 			}
 		}
 	}
@@ -206,7 +202,7 @@ func runC08(c *Ctx) {
 	}
 	c.c08ReturnsSmallerParam("C08-R3", c.fn("C08-R3", rp+".minCut"), 0, "a", "b", true)
 	c.c08ReturnsSmallerParam("C08-R3", c.fn("C08-R3", rp+".minNonZero"), 0, "a", "b", true)
-	c.Floor("C08-R3", 14)
+	c.Floor("C08-R3", 10)
 
 	// ------------------------------------------------------------------ R2
 	c.Doc("C08-R2", "SetUntil receives only inherited minima (minCut result / parameter fed so by every caller / minNonZero of one); Set (re-anchoring) is never called; SetUntil stores min(arg, now+maximumTTL); Get hides expired entries")
@@ -291,37 +287,38 @@ func runC08(c *Ctx) {
 		}
 	}
 	if su := c.fn("C08-R2", ap+".(*Cache).SetUntil"); su != nil {
-		for _, in := range instrsWhere(su, isPlainCallTo(storeFn)) {
-			v := callArg(in, 4)
-			key := "C08-R2|authority.SetUntil|stored deadline"
-			okAll := true
-			ls := c08Leaves(v)
-			for _, l := range ls {
-				ll := strip(l)
-				if c08IsParamNamed("expiresAt")(ll) {
+		// all store(...) calls of SetUntil together: whichever deadline reaches the
+		// table is min(argument, now+ceiling) — decided on the CFG, so one call
+		// behind a phi and two calls in opposite branches are the same thing
+		stores := instrsWhere(su, isPlainCallTo(storeFn))
+		terms := c.c08Fold("C08-R2", "C08-R2|authority.SetUntil|clamps down only", "stored deadline", c08ArgSinks(stores, 4), c08FoldOpt{})
+		key := "C08-R2|authority.SetUntil|stored deadline"
+		ls := c08TermExprs(terms)
+		okAll, hasArg, hasCeil := len(ls) > 0, false, false
+		for _, l := range ls {
+			ll := strip(l)
+			if c08IsParamNamed("expiresAt")(ll) {
+				hasArg = true
+				continue
+			}
+			if CallTo(timeAdd)(ll) && len(ll.Args) == 2 {
+				d, isC := constInt(ll.Args[1])
+				nowE := strip(ll.Args[0])
+				isNow := CallTo(timeNow)(nowE) || (nowE != nil && nowE.K == ECall && nowE.X != nil && FieldIs(nowField)(nowE.X))
+				if isC && isNow && d > 0 && d <= int64(12*time.Hour) {
+					hasCeil = true
 					continue
 				}
-				if CallTo(timeAdd)(ll) && len(ll.Args) == 2 {
-					d, isC := constInt(ll.Args[1])
-					nowE := strip(ll.Args[0])
-					isNow := CallTo(timeNow)(nowE) || (nowE != nil && nowE.K == ECall && nowE.X != nil && FieldIs(nowField)(nowE.X))
-					if isC && isNow && d > 0 && d <= int64(12*time.Hour) {
-						continue
-					}
-				}
-				okAll = false
-				c.violation("C08-R2", key, instrPos(in), "SetUntil stores a deadline that is neither its argument nor now+ceiling(<=12h): "+trunc(ll.String(), 160))
 			}
-			if okAll && len(ls) > 0 {
-				c.ok("C08-R2", key, instrPos(in), "stored deadline ∈ {"+c08ExprList(ls)+"}")
-			}
-			if phi, ok := v.(*ssa.Phi); ok {
-				c.c08MinFoldPhi("C08-R2", "C08-R2|authority.SetUntil|clamps down only", phi, "expiresAt")
-			} else if len(ls) != 1 || !c08IsParamNamed("expiresAt")(ls[0]) {
-				c.undecided("C08-R2", "C08-R2|authority.SetUntil|clamps down only", instrPos(in), "stored deadline is not a phi of alternatives")
-			} else {
-				c.violation("C08-R2", "C08-R2|authority.SetUntil|clamps down only", instrPos(in), "SetUntil applies no ceiling")
-			}
+			okAll = false
+			c.violation("C08-R2", key, su.Pos(), "SetUntil stores a deadline that is neither its argument nor now+ceiling(<=12h): "+trunc(ll.String(), 160))
+		}
+		switch {
+		case !okAll:
+		case !hasArg || !hasCeil:
+			c.violation("C08-R2", key, su.Pos(), fmt.Sprintf("SetUntil does not store min(argument, now+ceiling) (argument=%v ceiling=%v)", hasArg, hasCeil))
+		default:
+			c.ok("C08-R2", key, su.Pos(), "stored deadline ∈ {"+c08ExprList(ls)+"}")
 		}
 	}
 	if get := c.fn("C08-R2", ap+".(*Cache).Get"); get != nil {
@@ -381,13 +378,13 @@ func runC08(c *Ctx) {
 	searchCache := c.fobj("C08-R4", rp+".(*Resolver).searchCache")
 	if resolveF != nil && rwcn != nil && groupLookup != nil && searchCache != nil {
 		if pd != nil {
-			c.MustCross("C08-R4", pd, "descent (resolve / resolveWithCachedNameservers)", isCallTo(resolveF, rwcn), CallBarrier("noteCut", noteCut))
+			c.MustCross("C08-R4", pd, "descent (resolve / resolveWithCachedNameservers)", isCallTo(resolveF, rwcn), c08CallsAlways("noteCut", noteCut))
 		}
 		if f := c.fn("C08-R4", rp+".(*Resolver).resolveWithCachedNameservers"); f != nil {
-			c.MustCross("C08-R4", f, "descent (resolve)", isCallTo(resolveF), CallBarrier("noteCut", noteCut))
+			c.MustCross("C08-R4", f, "descent (resolve)", isCallTo(resolveF), c08CallsAlways("noteCut", noteCut))
 		}
 		if f := c.fn("C08-R4", rp+".(*Resolver).resolve"); f != nil {
-			c.MustCrossFrom("C08-R4", f, "query after the delegation-cache seed", isPlainCallTo(searchCache), isCallTo(groupLookup, resolveF), CallBarrier("noteCut", noteCut))
+			c.MustCrossFrom("C08-R4", f, "query after the delegation-cache seed", isPlainCallTo(searchCache), isCallTo(groupLookup, resolveF), c08CallsAlways("noteCut", noteCut))
 		}
 	}
 	// every cut-taking store call receives the request-tree bound
